@@ -53,7 +53,7 @@ CHECKS = {
         explanation="Structural necessary conditions of framebuffer read-after-write, decided on the MIR of all set_pixel impls, as_image, pixel, BUFFER_SIZE and CHECK_N: "
                     "R10.1 the writer depends on the data order iff the reader's load does (parametricity), R10.2 endianness / documented bit position pairing, "
                     "R10.3 every path of set_pixel that stores has established 0<=x<WIDTH and 0<=y<HEIGHT and every path that does not store has established the negation of one of them (writes exactly inside), the stored byte of sub-byte depths is a read-modify-write of the same byte with mask 2^bpp-1, R10.6 the byte index has the padded-row layout ImageRaw reads, "
-                    "R10.4 as_image views data[0..BUFFER_SIZE] with the same colour type/order and pixel() goes through it, R10.5 N>=BUFFER_SIZE is forced at compile time.",
+                    "R10.4 as_image views data[0..BUFFER_SIZE] with the same colour type/order and pixel() goes through it, R10.5 N>=BUFFER_SIZE is forced at compile time. R10.7 who-may-write: only the set_pixel impls (and helpers new to the tree that only they call) assign into or mutably borrow the backing array, data_mut() hands it out by contract and is not used by the library; R10.8 axis consistency of the index arithmetic.",
         claim="Decides layout agreement between writer and reader for all 7 depths x 2 orders (order dependence, endianness, bit position, padded row stride, guards, compile-time size check); histories as such follow from these but are not enumerated.",
         note="Necessary conditions; index forms are compared with the canonical padded-row formula after constant folding, other equivalent arithmetic is reported as undecided.",
         technique="type-parameter dependence + path-sensitive dataflow summaries (guard sets, stores and their index per path) + polynomial normal forms of index expressions over MIR",
@@ -63,7 +63,7 @@ CHECKS = {
     "C14": dict(
         packs=["c14"], level="other",
         explanation="R14.1 table check over every MonoFont constant as evaluated by rustc's const evaluator (atlas size, character size, data length, glyph count of the expanded NUL-marker mapping and replacement index versus the number of cells, unique characters): decides the clause 'each mapped character has its own index whose cell lies completely inside the font image' for every built-in font. "
-                    "R14.2 decoration pairing and width, R14.3 colour roles of the three MonoFontDrawTarget flavours and their construction in draw_string, R14.4 the two decoders of the mapping grammar and index(), R14.5 glyph() cell arithmetic and guards, who-may-call SubImage::new_unchecked.",
+                    "R14.2 decoration pairing and width, R14.3 colour roles of the three MonoFontDrawTarget flavours and their construction in draw_string, R14.4 the two decoders of the mapping grammar and index(), R14.5 glyph() cell arithmetic and guards, who-may-call SubImage::new_unchecked. R14.2 also: the effective_color table, and every successful path of draw_string / draw_whitespace that advanced has called draw_decorations with exactly its advance and position (must-pass-through).",
         claim="Decides the built-in font/mapping table clause for all fonts and the structural wiring of glyph lookup, colour roles and decorations; not the per-character advance arithmetic nor the bitmap contents.",
         note="Necessary conditions plus one exhaustive table clause; trusted: rustc const evaluation of the font constants, the checker's own copy of the documented mapping grammar (cross-checked against the two in-tree decoders by R14.4).",
         technique="constant-table lint over compiler-evaluated consts + path-sensitive dataflow summaries (closures of the glyph colour streams and the mapping decoders summarised per path) over MIR",
@@ -73,7 +73,7 @@ CHECKS = {
     "C02": dict(
         packs=["c02"], level="other",
         explanation="R02.1 the text box height covers the glyph cell and the underline on every path of measure_string (with the table obligation over all built-in fonts where the code relies on it), R02.2 decoration/baseline table over every MonoFont constant, "
-                    "R02.3 the six closed shapes grow their box by exactly stroke_area's growth, R02.4 min/max pairing of the text union and same (line, position) pairs for measuring and drawing, R02.5 the thick-segment box spans exactly the end points of the rasterised edges, R02.6 axis consistency (no definite x-quantity meets a y-quantity in sums, min/max or Point/Size components) in the styled/text/image code, R02.7 the triangle's hole test is existential over the joins of all three corners, each against its opposite edge.",
+                    "R02.3 the six closed shapes grow their box by exactly stroke_area's growth, R02.4 min/max pairing of the text union and same (line, position) pairs for measuring and drawing, R02.5 the thick-segment box spans exactly the end points of the rasterised edges, R02.6 axis consistency (no definite x-quantity meets a y-quantity in sums, min/max or Point/Size components) in the styled/text/image code, R02.7 the triangle's hole test is existential over the joins of all three corners, each against its opposite edge. R02.5 also fixes which corners edges() joins (each edge line on its own side, between start_join.second_edge_start and end_join.first_edge_end); R02.8 a path of measure_string whose box leaves the underline rows out has established that no underline can be drawn (underline_color None, or TextColor with no text colour).",
         claim="Decides the font-table clauses for all built-in fonts and the structural wiring of styled/text/thick-segment boxes; pixel-exact containment for lines, triangles and polylines (join arithmetic) is not decided.",
         note="Necessary conditions; trusted: rustc const evaluation of font constants; equivalent-but-different arithmetic is reported as undecided.",
         technique="constant-table lint + origin-tree comparison, path summaries and an axis (dimension) analysis over MIR",
@@ -93,7 +93,7 @@ CHECKS = {
     "C03": dict(
         packs=["c03"], level="other",
         explanation="Wiring rules over the MIR of the four adapters, their constructors, the pixel-translating iterator and the three DrawTarget default methods: R03.1 every geometric argument reaching Clipped's parent is sanitised (filter by clip_area.contains, intersection, or equality with its intersection; the re-cut path builds Cropped::new(colors, area.size, intersection.translate(-area.top_left))), "
-                    "R03.2 single constructors that confine the area once, R03.3 one shift with opposite sign for the reported box, R03.4 colours only through Into, R03.5 pass-through of Cropped, R03.6 trait defaults keep their geometry and every fill_contiguous in the library pairs the caller's colour stream with the caller's area.",
+                    "R03.2 single constructors that confine the area once, R03.3 one shift with opposite sign for the reported box, R03.4 colours only through Into, R03.5 pass-through of Cropped, R03.6 trait defaults keep their geometry and every fill_contiguous in the library pairs the caller's colour stream with the caller's area. R03.7 axis consistency of the iterator / draw-target code (colours to skip are counted in rows of the area width).",
         claim="Decides the structural exactness of adapters and defaults (what is forwarded, shifted, clipped, converted); the skip arithmetic of the cropping colour iterator and deep nestings are not decided.",
         note="Necessary conditions; idioms other than the enumerated ones are reported as violations (fail closed).",
         technique="origin-tree wiring comparison (canonical forms) + guard extraction and path summaries over MIR",
@@ -123,8 +123,8 @@ CHECKS = {
     "C15": dict(
         packs=["c15"], level="other",
         explanation="R15.1 on every path of Text::lines the string measured for alignment is the string yielded for drawing/boxing; R15.2 complete baseline_offset table; R15.3 draw_string/draw_whitespace subtract (0, baseline_offset) and add it back on every successful return path, measure_string predicts position + (width, 0); "
-                    "R15.4 alignment table (Left/Right/Center forms over next_position measured at zero), one line_height() advance per split item on every path, LineHeight::to_absolute table, Text::line_height wiring.",
-        claim="Decides the table/wiring clauses of text layout for every alignment, baseline and line-height variant; equality of summed advances (draw = measure on x, chaining) is arithmetic and not decided.",
+                    "R15.4 alignment table (Left/Right/Center forms over next_position measured at zero), one line_height() advance per split item on every path, LineHeight::to_absolute table, Text::line_height wiring. R15.5 the position returned by draw_string_binary / draw_string / draw_whitespace / Text::draw does not depend on the draw target (non-interference: the target occurs only as an argument of drawing calls, in their success tests and inside the payload of renderer calls).",
+        claim="Decides the table/wiring clauses of text layout for every alignment, baseline and line-height variant; that the returned position is independent of the target is decided (R15.5); equality of summed advances (draw = measure on x, chaining) is arithmetic and not decided.",
         note="Necessary conditions; equivalent-but-different arithmetic is reported as undecided.",
         technique="path-sensitive dataflow summaries and per-path origin trees over MIR compared with specification tables",
         trusted_base=TB,
@@ -134,7 +134,7 @@ CHECKS = {
         packs=["c06"], level="other",
         explanation="R06.1 complete inside/outside split tables over StrokeAlignment (outside + inside = width, larger half inside), R06.2 fill_area/stroke_area offsets (solid: -inside / +outside, non-solid fill: 0) and Styled forwards, "
                     "R06.3 segment/colour pairing: draw path (draw_stroke, draw_stroke_and_fill) and pixel path (three StyledPixelsIterator::next) assign the same colour role to the same scanline segment, segment accessors span the documented ranges, "
-                    "R06.4 both renderers of rectangle/circle/ellipse/rounded rectangle take their areas from style.stroke_area/fill_area of the unmodified primitive (call sites followed through helpers introduced by an edit), R06.5 axis consistency of the stroke/fill area code, R06.6 a row of the rounded rectangle's fill area in which the column search finds nothing carries no fill range.",
+                    "R06.4 both renderers of rectangle/circle/ellipse/rounded rectangle take their areas from style.stroke_area/fill_area of the unmodified primitive (call sites followed through helpers introduced by an edit), R06.5 axis consistency of the stroke/fill area code, R06.6 a row of the rounded rectangle's fill area in which the column search finds nothing carries no fill range. and a non-empty fill range starts at a column found by searching the stroke scanline with fill_area.contains().",
         claim="Decides the split tables (the statement's own wording) and the structural agreement of the two renderers with fill_area()/stroke_area(); that the scanline generators realise exactly contains() of those areas, and the rectangle's four-border arithmetic, are not decided.",
         note="Necessary conditions; fail closed on unrecognised idioms.",
         technique="decision-table extraction + origin-tree wiring comparison + axis (dimension) analysis over MIR",
@@ -154,7 +154,7 @@ CHECKS = {
     "C09": dict(
         packs=["c09"], level="other",
         explanation="R09.1 every SubImage area is confined (single confining constructor, who-may-call new_unchecked, unconditional forwards that compose for nesting), R09.2 ImageRaw::new accepts exactly bytes_per_row*height with padded rows, data_width table, new_const, "
-                    "R09.3 pixel()/draw_sub_image guard sets on path summaries (lookup/draw exactly when inside) and the index/skip forms, R09.4 colour count of ContiguousPixels by a potential function: remaining_x + remaining_y*width drops by exactly 1 on every pulling path of next(), stops only at 0, and new() must initialise it to width*height.",
+                    "R09.3 pixel()/draw_sub_image guard sets on path summaries (lookup/draw exactly when inside) and the index/skip forms, R09.4 colour count of ContiguousPixels by a potential function: remaining_x + remaining_y*width drops by exactly 1 on every pulling path of next(), stops only at 0, and new() must initialise it to width*height. R09.5 axis consistency of the image code (index = row * width + column).",
         claim="Decides length acceptance, guard placement, index/skip forms and the exact colour count of the stream (for an underlying iterator that does not run dry); colour order inside a row is inherited from C11's iterator rules.",
         note="Necessary conditions plus one invariant (potential function) check by polynomial identity on each path; trusted: path enumeration of small acyclic functions.",
         technique="path-sensitive dataflow summaries (guard sets: acting paths establish every guard, idle paths violate one), origin-tree comparison and a potential-function (ranking) check by polynomial identities per path",
@@ -164,7 +164,7 @@ CHECKS = {
     "C19": dict(
         packs=["c19"], level="other",
         explanation="R19.1 on every path of Triangle::scanline_intersection the set of rasterised edges is exactly (p1,p2),(p1,p3),(p2,p3) of the (y,x)-sorted vertices (only (p1,p3) in the colinear case), Triangle::contains walks the same canonical edges, sorted_yx is a 3-step compare-exchange network; "
-                    "R19.3 winding symmetry of Triangle::contains: the inside test is invariant under (s, t, area) -> (-s, -t, -area), decided in the sign domain over all 18 sign cases; R19.2 polyline Points::next loads Line(start+translate, end+translate) of the next two vertices, drops one vertex per segment, and re-enters the polyline iterator with the shared joint skipped so that zero-length segments fall through.",
+                    "R19.3 winding symmetry of Triangle::contains: the inside test is invariant under (s, t, area) -> (-s, -t, -area), decided in the sign domain over all 18 sign cases; R19.2 polyline Points::next loads Line(start+translate, end+translate) of the next two vertices, drops one vertex per segment, and re-enters the polyline iterator with the shared joint skipped so that zero-length segments fall through. R19.4 the outline rows of a stroked triangle keep every edge: each edge intersection is merged into / becomes the left run, or after the left run refused it the right run, on every loop path of edge_intersections.",
         claim="Decides the canonical-edge clause (shared edges rasterise identically, result independent of vertex order as far as edge direction is concerned) and the segment-chaining structure of thin polylines; interior coverage, one-pixel tolerance and gap-freedom are geometry and not decided.",
         note="Necessary conditions; fail closed on unrecognised idioms.",
         technique="per-path origin trees and path summaries over MIR (edge-set extraction, per-path effects of the polyline iterator) compared with the canonical edge table",
@@ -195,8 +195,8 @@ CHECKS = {
     "C16": dict(
         packs=["c16", "degree_c16"], level="other",
         explanation="R16.1 the two public definitions of Rectangle::contains and Rectangle::offset (core inherent vs. embedded-graphics trait impl) have identical decision structures; R16.3 no library logic compares whole Point/Size values with the derived lexicographic order; R16.4 component_min/component_max are component-wise and intersection/envelope build top-left/bottom-right from max/min resp. min/max; "
-                    "R16.5 translation-degree analysis of the Rectangle API: positions have degree 1, sizes and differences degree 0, no truncating division or variable scaling is applied to a position-dependent value and comparisons relate values of equal degree. R16.6 axis consistency of the rectangle and geometry operations.",
-        claim="Decides agreement of duplicate definitions, absence of lexicographic point logic, the min/max roles of the corner arithmetic and translation-equivariance (hence rounding independent of position) of the Rectangle operations; set-theoretic exactness of the interval case analysis is not decided.",
+                    "R16.5 translation-degree analysis of the Rectangle API: positions have degree 1, sizes and differences degree 0, no truncating division or variable scaling is applied to a position-dependent value and comparisons relate values of equal degree. R16.6 axis consistency of the rectangle and geometry operations. R16.7 value and decision tables of bottom_right, both contains, is_zero_sized, anchor_x/y, resize_*_mut, rows/columns, center/with_center and with_corners against the point-set meaning of top-left plus size (polynomial normal forms of values and comparison facts with all crate-local callees inlined).",
+        claim="Decides agreement of duplicate definitions, absence of lexicographic point logic, the min/max roles of the corner arithmetic and translation-equivariance (hence rounding independent of position) of the Rectangle operations; set-theoretic exactness of the accessor / constructor functions is decided by R16.7 for sizes below 2^31; the interval case analysis inside intersection() (overlaps) is not decided.",
         note="Necessary conditions.",
         technique="sibling-implementation agreement (decision signatures), typed call-site lint, translation-degree abstract domain, axis (dimension) analysis over MIR",
         trusted_base=TB,
@@ -215,7 +215,7 @@ CHECKS = {
     "C18": dict(
         packs=["c18"], level="other",
         explanation="R18.1 the circle and ellipse hit tests use the centre offset only through even functions (x*x + y*y, pow(2)): mirror symmetry about both centre lines for all inputs; R18.2/R18.4 under width == height the ellipse threshold is the circle's diameter_to_threshold and the test is x^2 + y^2 < threshold, a = width^2, b = height^2, both doubled-centre formulas are top_left*2 + (size-1); "
-                    "R18.3 in the float and the fixed_point build PlaneSector::new selects EntirePlane exactly under |sweep| >= ANGLE_360DEG (= 2*pi), which accepts every point; R05.2 the corner-quadrant tables of rounded rectangles. R18.5 complete decision tables of Operation::execute (and / or / true), PlaneSector::contains (left half plane on its Left side, right on its Right side, combined by the operation for all three operations x four outcomes) and point_type (None / Stroke / Fill). R18.6 axis consistency of corner radii, quadrants and centres.",
+                    "R18.3 in the float and the fixed_point build PlaneSector::new selects EntirePlane exactly under |sweep| >= ANGLE_360DEG (= 2*pi), which accepts every point; R05.2 the corner-quadrant tables of rounded rectangles. R18.5 complete decision tables of Operation::execute (and / or / true), PlaneSector::contains (left half plane on its Left side, right on its Right side, combined by the operation for all three operations x four outcomes) and point_type (None / Stroke / Fill). R18.6 axis consistency of corner radii, quadrants and centres. R18.7 CornerRadii::confine measures the overlap along each of the four sides with the two corners of that side and scales all corners by extent / radii sum of one side.",
         claim="Decides the symmetry, circle-equals-ellipse, full-sweep, plane-sector combination and corner-table clauses structurally; half-pixel accuracy, contiguity, bounding-box contact and angular tolerances are numeric and not decided.",
         note="Necessary conditions; overflow of the squared terms is C08's concern.",
         technique="parity (even-function) analysis, complete decision tables from path summaries and axis (dimension) analysis over MIR in two feature configurations",
